@@ -80,6 +80,9 @@ def generate(rng, focus, tier="quick"):
         cfg["entries"] = {}
         for a in assets:
             r = rng.random()
+            if r < 0.08:
+                cfg["entries"][a] = -rng.choice([1, 365, 2922, 20000]) * DAY     # listed before 1970
+                continue
             cfg["entries"][a] = (start - DAY) if r < 0.5 else ((start + rng.randrange(0, 20) * DAY + rng.choice([0, CLOSE_S, 17 * 3600])) if r < 0.9 else None)
         if rng.random() < 0.4:
             cfg["entry_tz"] = dict((a, rng.choice(["US/Eastern", "Asia/Tokyo", "UTC"])) for a in assets)
@@ -123,6 +126,9 @@ def generate(rng, focus, tier="quick"):
             if not long_only and rng.random() < 0.4:
                 v = -v
             w[a] = v
+        if rng.random() < 0.12:
+            # integer-typed weights (plain Python ints, as a +1/-1 signal would produce)
+            w = dict((a, rng.choice([1, 1, 2, 3]) * (-1 if (not long_only and rng.random() < 0.4) else 1)) for a in keys)
         if rng.random() < 0.15:
             # weight vectors that are *almost* normalised: thirds rounded to six decimals, 1 +/- a few 1e-6 ...
             n = len(keys)
